@@ -12,6 +12,10 @@ Enumerated (one *case* per item; families of cases are the top-level scenarios):
            distinct non-default values x every loader {from_mapping(dict), from_mapping(**kw), from_object(class),
            from_object(instance), from_object("module"), from_object("module.attr"), from_pyfile, from_toml,
            the CLI flag if one is documented, main -c file.toml, main -c file:x.py, main -c python:module}
+           and the "Python object" loader over WHERE the object keeps the setting (OBJECT_LOADERS): a class attribute
+           of an instance, an attribute inherited from a base class (instance / the class object itself), base class
+           and instance mixed, a property, __slots__, a types.SimpleNamespace, a module object; the class-level and
+           inherited forms also through from_object("module.attr") and main -c python:module.attr
   load2    every ordered pair of keys set together through {mapping, toml} (thorough: 7 loaders)
   cli1     every documented spelling of every flag alone x value sets (unique / edge / negative-odd) x
            {--flag value, --flag=value} (thorough) x position of the application argument (thorough)
@@ -100,7 +104,8 @@ from mc import x_c19c20_ref as ref
 
 ID = "C19"
 LEVEL = "exploration"
-TECHNIQUE = ("bounded exhaustive enumeration of the finite configuration space (keys x values x loaders, CLI flags "
+TECHNIQUE = ("bounded exhaustive enumeration of the finite configuration space (keys x values x loaders incl. every placement of a "
+             "setting on a Python object - instance / class / base class / property / slots / namespace / module -, CLI flags "
              "alone and in ordered pairs, histories over several Config instances with a differential 'every other instance and a "
              "fresh instance observe what they observed before' oracle over all setters / create_sockets on real loopback sockets / "
              "derived-value readers, pickle round trip into a fresh interpreter as for spawned workers, -c argument forms x prefix-exercising file / module names x placement x present / missing "
@@ -114,6 +119,8 @@ ASSUMPTIONS = [
     "the documented key and flag tables (mc/x_c19c20_ref.py) were transcribed from docs/how_to_guides/configuring.rst and "
     "the --help texts; clause cli-table-coverage checks them against the live parser",
     "values that a format cannot express are not loaded through it (None / classes / enums in TOML, non-integers on the CLI)",
+    "Python objects as a settings source: plain data attributes only (reachable by dir() + getattr()); values that are "
+    "plain functions (which a class attribute would turn into bound methods) do not occur among the documented settings",
     "binds use loopback addresses, ephemeral or probed-free ports, temp-dir unix sockets and dup()ed descriptors only; "
     "[::] / 0.0.0.0 are not bound; aioquic is not installed: the alt-svc branch of response_headers that derives values from "
     "the QUIC sockets is reached in the hist family only, through a stand-in aioquic.h3.connection module with H3_ALPN = ['h3']",
@@ -129,12 +136,12 @@ ASSUMPTIONS = [
     "port 8000 (the documented default of bare hosts) is occupied on this machine the case is skipped, not judged",
 ]
 BOUNDS_DOC = {
-    "quick": "all 54 keys x 2 values x 12 loaders + ordered key pairs x 2 loaders; all 44 spellings alone x 3 value sets; 36x36 ordered canonical pairs; "
+    "quick": "all 54 keys x 2 values x 25 loaders (12 sources + 13 placements of a setting on a Python object) + ordered key pairs x 2 loaders; all 44 spellings alone x 3 value sets; 36x36 ordered canonical pairs; "
              "toml file key x flag; -c forms: 69 file + 74 toml names (68 for the bare relative word) x 4 placements, 60 module names x {module, module.attribute} x 3 sys.path "
              "arrangements, each with the target present and missing (1852 cases, decoys at every suffix of the word); bind shapes alone + pairs; 2 years + 1 day of minutes of clock lattice; "
              "hist: 54 keys x 3 operations, 9 misc operations, 4 bind kinds x 3 shapes x 2 alt-svc x (4 kinds x 2 shapes) two-instance socket histories "
              "of 3 operations, 16 + 108 pickles into fresh interpreters",
-    "thorough": "as quick plus key pairs x 7 loaders, all 36^3 canonical triples, all 44x44 ordered spelling pairs x 3 value sets x 2 argv styles, 3 config-file formats, "
+    "thorough": "as quick plus key pairs x 9 loaders (two of them objects with base-class / mixed placement), all 36^3 canonical triples, all 44x44 ordered spelling pairs x 3 value sets x 2 argv styles, 3 config-file formats, "
                 "-c names additionally with every ordered pair of prefix characters as the first two characters (flat and as directory / "
                 "package name) and every ordered pair of the prefix words as directory/file resp. package.module (12340 cases), "
                 "clock lattice over every day 1970-2100; hist second instance over all 3 shapes, 24 + 108 pickles",
@@ -263,6 +270,12 @@ def config_files(settings: Dict[str, Any]) -> Any:
                     f.write(pre)
                     pre_done += pre
                 f.write(f"instance.{k} = {expr}\n")
+            # the same settings held as CLASS attributes of an instance, and inherited from a base class
+            f.write("\n\nclass _ClassLevel:\n")
+            for k, v in settings.items():
+                f.write(f"    {k} = {ref.python_value(v)[1]}\n")
+            f.write("    pass\n\n\nclass _Derived(_ClassLevel):\n    pass\n\n\n")
+            f.write("classattr = _ClassLevel()\ninherited = _Derived()\nDerived = _Derived\n")
         try:
             text = ref.toml_document(settings)
             paths["toml"] = os.path.join(d, "cfg.toml")
@@ -289,6 +302,13 @@ def config_files(settings: Dict[str, Any]) -> Any:
 
 LOADERS = ["mapping", "kwargs", "class", "instance", "module", "module_attr", "pyfile", "toml", "cli",
            "main-toml", "main-pyfile", "main-module"]
+# the "Python object" loader over WHERE the object keeps its settings: class attributes of an instance, attributes
+# inherited from a base class (instance and class object), a property, __slots__, a SimpleNamespace, a module object;
+# the same through the dotted "module.attribute" string and through `-c python:module.attribute`
+OBJECT_LOADERS = ["obj-classattr", "obj-inherited", "class-inherited", "obj-mixed", "obj-property", "obj-slots", "namespace",
+                  "module-object", "module_attr-classattr", "module_attr-inherited", "module_attr-class",
+                  "main-module-attr", "main-module-attr-inherited"]
+LOADERS += OBJECT_LOADERS
 
 
 def cli_args_for(key: str, value: Any) -> Optional[List[str]]:
@@ -344,6 +364,8 @@ def do_load(case: tuple) -> ExecResult:
                 cfg = Config.from_object(p["module"])
             elif loader == "module_attr":
                 cfg = Config.from_object(p["module"] + "_inst.instance")
+            elif loader in OBJECT_LOADERS and not loader.startswith("main-"):
+                cfg = Config.from_object(_settings_object(loader, settings, p))
             elif loader == "pyfile":
                 cfg = Config.from_pyfile(p["pyfile"])
             elif loader == "toml":
@@ -362,6 +384,10 @@ def do_load(case: tuple) -> ExecResult:
                         argv = ["-c", p["toml"]] if p["toml"] is not None and kind in ref.TOML_KINDS else None
                     elif loader == "main-pyfile":
                         argv = ["--config", "file:" + p["pyfile"]]
+                    elif loader == "main-module-attr":
+                        argv = ["-c", "python:" + p["module"] + "_inst.classattr"]
+                    elif loader == "main-module-attr-inherited":
+                        argv = ["-c", "python:" + p["module"] + "_inst.inherited"]
                     else:
                         argv = ["-c", "python:" + p["module"]]
                 if argv is not None and key != "application_path":
@@ -379,7 +405,43 @@ def do_load(case: tuple) -> ExecResult:
     return _result(case, viol, snap_digest(snap), snap != defaults(), {"case": repr(case), key: stable_repr(snap.get(key))})
 
 
-LOADERS2 = {"quick": ["mapping", "toml"], "thorough": ["mapping", "kwargs", "class", "module", "pyfile", "toml", "main-toml"]}
+def _settings_object(loader: str, settings: Dict[str, Any], p: Dict[str, Any]) -> Any:
+    """A Python object (or the dotted name of one) that carries `settings` the way `loader` says."""
+    import types
+
+    if loader == "obj-classattr":
+        return type("Settings", (), dict(settings))()
+    if loader in ("obj-inherited", "class-inherited"):
+        derived = type("Production", (type("BaseSettings", (), dict(settings)),), {})
+        return derived() if loader == "obj-inherited" else derived
+    if loader == "obj-mixed":  # the first setting on the base class, the others on the instance
+        keys = list(settings)
+        holder = type("Production", (type("BaseSettings", (), {keys[0]: settings[keys[0]]}),), {})()
+        for k in keys[1:]:
+            setattr(holder, k, settings[k])
+        return holder
+    if loader == "obj-property":
+        return type("Settings", (), {k: property(lambda self, v=v: v) for k, v in settings.items()})()
+    if loader == "obj-slots":
+        holder = type("Settings", (), {"__slots__": tuple(settings)})()
+        for k, v in settings.items():
+            setattr(holder, k, v)
+        return holder
+    if loader == "namespace":
+        return types.SimpleNamespace(**settings)
+    if loader == "module-object":
+        return importlib.import_module(p["module"])
+    if loader == "module_attr-classattr":
+        return p["module"] + "_inst.classattr"
+    if loader == "module_attr-inherited":
+        return p["module"] + "_inst.inherited"
+    if loader == "module_attr-class":
+        return p["module"] + "_inst.Derived"
+    raise ValueError(loader)
+
+
+LOADERS2 = {"quick": ["mapping", "toml"],
+            "thorough": ["mapping", "kwargs", "class", "module", "pyfile", "toml", "main-toml", "obj-mixed", "obj-inherited"]}
 
 
 def do_load2(case: tuple) -> ExecResult:
@@ -400,6 +462,8 @@ def do_load2(case: tuple) -> ExecResult:
                 cfg = Config.from_object(type("Settings", (), dict(settings)))
             elif loader == "module":
                 cfg = Config.from_object(p["module"])
+            elif loader in OBJECT_LOADERS:
+                cfg = Config.from_object(_settings_object(loader, settings, p))
             elif loader == "pyfile":
                 cfg = Config.from_pyfile(p["pyfile"])
             elif p["toml"] is None or not all(k in ref.TOML_KINDS for k in kinds.values()):
@@ -995,7 +1059,7 @@ def describe_socket(sock: socket.socket, bind: str, extra: dict, type_: int) -> 
 # part: root
 
 ROOT_PATHS = ["", "/", "//", "/a", "/a/", "/a//", "/a/b", "/a/b/", "a/", "/a/ ", "/%2F/", "/a/./", "/a b/", "///a///"]
-ROOT_LOADERS = ["attr", "mapping", "kwargs", "class", "pyfile", "toml", "cli", "cli="]
+ROOT_LOADERS = ["attr", "mapping", "kwargs", "class", "obj-classattr", "obj-inherited", "pyfile", "toml", "cli", "cli="]
 
 
 def do_root(case: tuple) -> ExecResult:
@@ -1014,6 +1078,8 @@ def do_root(case: tuple) -> ExecResult:
             cfg = Config.from_mapping(root_path=path)
         elif loader == "class":
             cfg = Config.from_object(type("S", (), {"root_path": path}))
+        elif loader in ("obj-classattr", "obj-inherited"):
+            cfg = Config.from_object(_settings_object(loader, {"root_path": path}, p))
         elif loader == "pyfile":
             cfg = Config.from_pyfile(p["pyfile"])
         elif loader == "toml":
@@ -1051,6 +1117,9 @@ def do_hdr(case: tuple) -> ExecResult:
     hc.time = lambda: epoch
     try:
         headers = cfg.response_headers(proto)
+    except Exception as e:  # the headers of a response cannot be produced at all
+        return _result(case, [V("response-headers", f"raised:{type(e).__name__}", f"response_headers({proto!r}) raised {e!r}")],
+                       ("raised", type(e).__name__), True)
     finally:
         hc.time = orig
     viol: List[dict] = []
